@@ -145,8 +145,7 @@ def merge(prop, mod, tier, seed, cells, outs, problems, wall):
         done += o.get("cells_done", 0)
         skipped += o.get("cells_skipped", 0)
         for c in o.get("coverage", []):
-            key = (c["file"], c["first"], c["last"])
-            d = cov.setdefault(key, {"lines": set(), "hit": set()})
+            d = cov.setdefault(c["label"], {"lines": set(), "hit": set()})
             d["lines"] |= set(c["lines"])
             d["hit"] |= set(c["hit"])
     # optional property-level post-processing / classification
@@ -200,12 +199,11 @@ def merge(prop, mod, tier, seed, cells, outs, problems, wall):
         if sum(mon_evals.get(mname, {}).values()) == 0:
             inconclusive.append(f"deciding monitor {mname} was never evaluated")
     covrep = []
-    for (f, a, b), d in sorted(cov.items()):
-        covrep.append({"region": f"{f}:{a}-{b}", "executable_lines": len(d["lines"]),
+    for label, d in sorted(cov.items()):
+        covrep.append({"region": label, "executable_lines": len(d["lines"]),
                        "hit": len(d["hit"])})
-        if d["lines"] and not d["hit"] and (f, a, b) in [tuple(x) for x in getattr(
-                mod, "REQUIRED_ANCHORS", getattr(mod, "ANCHORS", []))] and len(cells) > 1:
-            inconclusive.append(f"anchored region {f}:{a}-{b} never executed")
+        if not d["hit"] and len(cells) > 1 and not getattr(mod, "ANCHORS_OPTIONAL", False):
+            inconclusive.append(f"anchored region {label} never executed")
     need = getattr(mod, "MIN_EVALUATIONS", {"quick": 1, "thorough": 1}).get(tier, 1)
     if ev < need:
         inconclusive.append(f"only {ev} evaluations (< {need})")
